@@ -189,6 +189,11 @@ pub(crate) mod verif_fd1 {
         core::mem::forget(d);
     }
 
+    /// stand-in for the final drain inside decode_from_to (draining is D1/D2's statement; here only source accounting matters)
+    fn stub_fd_read(_d: &mut FrameDecoder, _target: &mut [u8]) -> Result<usize, Error> {
+        Ok(0)
+    }
+
     /// FD2: decode_from_to over a source slice: consumed <= given, consumed == counter delta, a block is consumed only if entirely present,
     /// a checksum-only call consumes 4 bytes iff 4 are present (else 0)
     #[cfg(kani)]
@@ -196,6 +201,7 @@ pub(crate) mod verif_fd1 {
     #[kani::unwind(5)]
     #[kani::stub(crate::decoding::block_decoder::BlockDecoder::read_block_header, crate::decoding::block_decoder::verif_fd1b::stub_read_block_header)]
     #[kani::stub(crate::decoding::block_decoder::BlockDecoder::decode_block_content, crate::decoding::block_decoder::verif_fd1b::stub_decode_block_content)]
+    #[kani::stub(<crate::decoding::frame_decoder::FrameDecoder as crate::io::Read>::read, stub_fd_read)]
     fn fd2_decode_from_to() {
         script();
         unsafe { S_OUT = [0; NB]; S_HERR = [false; NB]; S_BERR = [false; NB]; S_LAST[1] = true; }
